@@ -1,7 +1,7 @@
 (* C20 — Tickets are never forged, duplicated, zeroed or merged incorrectly.
    Model: Michelson/Tickets.v — [step]/[run] mirror the pytezos instructions TICKET, READ_TICKET,
    SPLIT_TICKET, JOIN_TICKETS, DUP, DUP n and the stack/pair/option/list instructions that move
-   tickets (SWAP DROP DIG DUG PAIR UNPAIR CAR CDR SOME NONE IF_NONE NIL CONS IF_CONS ITER MAP PUSH); programs
+   tickets (SWAP DROP DIG DUG PAIR UNPAIR CAR CDR SOME NONE IF_NONE NIL CONS IF_CONS ITER MAP LEFT RIGHT IF_LEFT EMPTY_MAP EMPTY_BIG_MAP UPDATE GET_AND_UPDATE MEM GET LAMBDA APPLY EXEC LOOP PUSH); programs
    are arbitrary (nested) instruction lists.  The state carries a ghost ledger [minted] that only
    TICKET extends.  [stack_mass k s] is the total amount of the tickets with key k = (ticketer,
    contents) anywhere inside the stack (also inside pairs, options, lists). *)
